@@ -43,6 +43,10 @@ pub fn fuzz_eval(target: &str, data: &[u8]) -> Option<crate::engine::CaseResult>
             Some(crate::engine::fuzz::eval_case(|rec| c14::check_case(&case, rec)))
         }
         "c01_bytes" => Some(crate::engine::fuzz::eval_case(|rec| c01::check_bytes(data, rec))),
+        "c05_tape" => {
+            let tape = c05::tape_from_bytes(data);
+            Some(crate::engine::fuzz::eval_case(|rec| c05::check_case(&tape, rec)))
+        }
         "c02_shape" => {
             let case = c02::case_from_bytes(data).ok()?;
             Some(crate::engine::fuzz::eval_case(|rec| c02::check_case(&case, rec)))
@@ -56,6 +60,7 @@ pub fn fuzz_target_property(target: &str) -> Option<&'static str> {
         "c14_reader" => Some("C14"),
         "c01_bytes" | "c01_ops" => Some("C01"),
         "c02_shape" => Some("C02"),
+        "c05_tape" => Some("C05"),
         _ => None,
     }
 }
